@@ -1135,6 +1135,9 @@ fn gen_case(r: &mut Rng, long: bool) -> Case {
     let mut evs = vec![];
     let big_budget = if r.chance(1, 6) { 3 } else { 0 };
     let idspace = *r.pick(&[3u64, 3, 3, 3, 8, 40]);
+    // frame timestamps are in the property's quantifier: past, far past, and ahead of any local clock (a fold that
+    // consults the wall clock - clamping, ageing - differs from the model there and from its own second run)
+    let ts_base = *r.pick(&[1000u64, 1000, 0, 1 << 45, 1 << 62, u64::MAX - 100_000]);
     let mut bigs = 0;
     for i in 0..n {
         let s = match mode {
@@ -1180,7 +1183,7 @@ fn gen_case(r: &mut Rng, long: bool) -> Case {
             16 => K::JobEnded(id),
             _ => K::Other(r.below(26 * 6)),
         };
-        evs.push(Ev { seq: s, ts: 1000 + i * 3 + r.below(3), k, ident: i });
+        evs.push(Ev { seq: s, ts: ts_base + i * 3 + r.below(3), k, ident: i });
         seq = if mode == 4 { seq.saturating_sub(1) } else { seq.saturating_add(1) };
     }
     let mut probes: Vec<u64> = vec![0, 1, 2, 3, 4, 5, 6, u64::MAX];
